@@ -13,6 +13,13 @@ def tests_corpus():
 
 
 def corpus(pid, tier, seed):
+    rp = os.environ.get("VERIF_REPLAY")
+    if rp:  # ./check <id> --replay <file>: re-run exactly the recorded program
+        with open(rp) as f:
+            r = json.load(f)
+        src = r.get("case", {}).get("src")
+        if src:
+            return [{"src": src.split("\n# ")[0] if pid in ("C07", "C08") else src, "origin": "replay"}]
     out = list(tests_corpus())
     try:
         from . import proggen
